@@ -170,6 +170,7 @@ pub fn run(sc: &Scenario, hooks: Hooks) -> Vec<Value> {
     let _ = take_events();
     crate::common::CIDLEN.with(|c| c.set([0, 0]));
     crate::common::ISSUED_MAX.with(|c| c.set([0, 0]));
+    crate::common::LAST_TX_PN.with(|c| c.set([None, None]));
     // guarded hooks of the code under test (cfg aws_s2n_quic_verif) report through a thread-local line sink
     s2n_quic_core::verif::install(Box::new(|line: &str| {
         if let Ok(v) = serde_json::from_str::<Value>(line) {
